@@ -3,6 +3,7 @@ import Bluebell.Lemmas.AknWF
 import Bluebell.Lemmas.FlatDoc
 import Bluebell.Lemmas.NestedDoc
 import Bluebell.Lemmas.TokDoc
+import Bluebell.Lemmas.JudgmentDoc
 import Bluebell.Props.C11
 /-!
 # C01 — conversion is total
@@ -171,10 +172,11 @@ Putting C11's normal-form theorem (for **every** text, `pre_parse` yields balanc
 markers) together with the acceptance of well-nested plain blocks: take any text whose lines, once
 trimmed, are empty or *good* — plain characters only, first character a `plainStart` character — with
 **any** indentation pattern, tabs, blank lines, trailing blanks, any `indent_size ≥ 1`… The pre-parsed
-text is accepted in full by the five structured roots.  (The model's `preParse` is tied to the real
+text is accepted in full by **all six documented roots** (a judgment without part markers keeps everything
+in `arguments`).  (The model's `preParse` is tied to the real
 `pre_parse` by C11's correspondence check; `GoodLine` is decidable per line.) -/
 theorem C01_plain_text_any_indentation (n : Nat) (text : List Char) (root : String)
-    (hroot : root ∈ ["doc", "statement", "debateReport", "act", "bill"])
+    (hroot : root ∈ sixRoots)
     (hne : pyStrip (detab n text) ≠ [])
     (hlines : ∀ l ∈ (splitLines (pyStrip (detab n text))).map trimSpaces, l = [] ∨ GoodLine l) :
     let inp := (preParse n text).toArray
@@ -183,7 +185,7 @@ theorem C01_plain_text_any_indentation (n : Nat) (text : List Char) (root : Stri
   obtain ⟨toks, ⟨hpre, hcl⟩, hnf⟩ := preParse_nonblank n text hne
   obtain ⟨bs, hb, hs⟩ := blocks_of_normal_form toks hnf.balanced hnf.no_empty_block hnf.first_nonblank
   have hg : GoodKs bs := goodKs_of_struct bs hs (by rw [← hb, hcl]; exact hlines)
-  have := good_blocks_accepted bs hg root hroot
+  have := good_blocks_accepted_six bs hg root (by simpa [sixRoots] using hroot)
   simp only at this
   have he : inp = (unlines (toksKs bs)).toArray := by simp [inp, hpre, hb]
   rw [he]; exact this
